@@ -30,7 +30,7 @@ func (x *gen) thorough() bool { return x.tier == "thorough" }
 var charPool = []string{
 	"a", "b", "c", "x", "y", "z", "A", "B", "C", "Z", "0", "1", "2", "3", "5", "7", "9", "O", "I", "l", "S",
 	"!", "@", ".", "-", "_", "*", "#", " ", "é", "ü", "ß", "ñ", "Ω", "→", "日", "本", "😀", "𝄞", "ǆ", "́",
-	"\uFFFD", "%", "\\", "\"",
+	"\uFFFD", "%", "\\", "\"", "\ufeff", "\u200f", "\U00010428", "\U00010400", "\u200d", "\u0130", "\u0131", "ǅ",
 }
 
 func (x *gen) poolString(maxLen int, dupes bool) string {
@@ -553,7 +553,10 @@ var wordPool = []string{"one", "two", "three", "polish", "Polish", "One", "ONE",
 	// letters whose title-cased form has a different UTF-8 length (2->1, 2->1, 2->3, 3->2 bytes)
 	"ıx", "ſix", "ɐb", "ⱥb",
 	// entries that differ only in surrounding white space (CRLF files, stray blanks) are different words
-	"horse\r", " horse", "horse ", "lab\t", "one\n", "\u00a0one"}
+	"horse\r", " horse", "horse ", "lab\t", "one\n", "\u00a0one",
+	// valid but unusual: a byte-order mark, a right-to-left mark, a decomposed accent, letters outside the BMP
+	// (Deseret: lower 𐐨 has the upper form 𐐀), a zero-width joiner sequence, USA / usa (ToLower is not Title's inverse)
+	"\ufeffbom", "rtl\u200f", "e\u0301cole", "\U00010428\U00010429", "\U00010400\U00010429", "a\u200db", "usa", "USA", "iPhone", "IPhone"}
 
 // words that all change under strings.Title, including pairs of distinct words that share one
 // title-cased form (outside the premise of C04/C06, but inside C08/C10)
@@ -1229,7 +1232,11 @@ func (x *gen) cliFileTextOp() {
 	if x.g.chance(60) {
 		args = append(args, "--entropy")
 	}
-	x.emit("cli argv=%s words=%s titles=%s filetext=%s", encList(args), encList(words), encList(wordTitles(words)), encCps(text))
+	pipe := ""
+	if x.g.chance(25) {
+		pipe = " pipe=1"
+	}
+	x.emit("cli argv=%s words=%s titles=%s filetext=%s%s", encList(args), encList(words), encList(wordTitles(words)), encCps(text), pipe)
 }
 
 func (x *gen) cliOp() {
@@ -1663,6 +1670,9 @@ func generate(prop, tier string, seed uint64) []string {
 	}
 	switch prop {
 	case "C01":
+		// the raw word a draw is given is its own, whatever else the library is doing meanwhile
+		rep(25, func() { x.chargenOp(x.recipe(1), fmt.Sprintf(" reenter=%d", 1+x.g.intn(5))) })
+		rep(15, func() { x.wlgenOp("wlgen", fmt.Sprintf(" reenter=%d", 1+x.g.intn(5))) })
 		x.budgetBoundaryOps()
 		rep(3000, x.drawOp)
 		rep(400, x.sourceOp)
@@ -1721,6 +1731,10 @@ func generate(prop, tier string, seed uint64) []string {
 		rep(1200, func() { x.charinfoOp(x.recipe(3)) })
 		rep(400, func() { x.charinfoOp(x.recipe(0)) })
 	case "C08":
+		for _, sch := range []string{"none", "random", "one"} {
+			x.emit("wlent words=%s titles=%s L=4 sep=char:_ cap=%s tape=1.2.3.4 sfnone=reassigned", encList([]string{"uno", "dos", "tres"}), encList([]string{"Uno", "Dos", "Tres"}), encCps(sch))
+			x.emit("wlent words=%s titles=%s L=4 sep=char:45 cap=%s tape=1.2.3.4 sfnone=reassigned", encList([]string{"uno", "dos", "tres"}), encList([]string{"Uno", "Dos", "Tres"}), encCps(sch))
+		}
 		x.budgetBoundaryOps()
 		x.wlLengthBlock()
 		// Entropy() on a source that fails at its first read: a panic, or the recipe's value — never another value
@@ -1775,6 +1789,16 @@ func generate(prop, tier string, seed uint64) []string {
 		rep(200, func() { x.wlgenOp("wlgen", "") })
 		x.presetCells()
 	case "C15":
+		// forty calls nested in one another, all the same recipe on the same bytes
+		for i := 0; i < 3; i++ {
+			x.wlgenOp("wlgen", " reenter=2 depth=40")
+			x.chargenOp(x.recipe(1), " reenter=1 depth=40")
+		}
+		// the program reassigns an exported preset variable; recipes that do not mention it are unaffected
+		for _, sch := range []string{"none", "random"} {
+			x.emit("wlent words=%s titles=%s L=4 sep=char:_ cap=%s tape=1.2.3.4 sfnone=reassigned", encList([]string{"uno", "dos", "tres"}), encList([]string{"Uno", "Dos", "Tres"}), encCps(sch))
+			x.emit("wlgen words=%s titles=%s L=4 sep=char:_ cap=%s tape=1.2.3.4.5.6.7.8.9.10 sfnone=reassigned", encList([]string{"uno", "dos", "tres"}), encList([]string{"Uno", "Dos", "Tres"}), encCps(sch))
+		}
 		x.budgetBoundaryOps()
 		rep(8, x.collisionPairOps)
 		rep(6, x.sepHistoryOps)
@@ -1783,6 +1807,14 @@ func generate(prop, tier string, seed uint64) []string {
 		rep(60, func() { x.wlgenOp("wlgen", fmt.Sprintf(" reenter=%d", 1+x.g.intn(6))) })
 		rep(60, func() { x.historyOps(25) })
 	case "C16":
+		// the presets on a source that answers in short reads
+		for _, sp := range []string{"preset:d1", "preset:d2", "preset:sym", "preset:ds", "preset:dna1"} {
+			t := make([]uint32, 24)
+			for i := range t {
+				t[i] = x.g.u32()
+			}
+			x.emit("wlgen words=%s titles=%s L=4 sep=%s cap=%s tape=%s chunk=%d", encList([]string{"uno", "dos", "tres"}), encList([]string{"Uno", "Dos", "Tres"}), sp, encCps("none"), encWords(t), x.g.next()%1000000)
+		}
 		for _, sp := range []string{"preset:d1", "preset:d2", "preset:dna2", "preset:sym", "preset:ds"} {
 			t := make([]uint32, 24)
 			for i := range t {
